@@ -216,9 +216,14 @@ func (o *OracleC09) After(x *Exec, op *Op, res *Res) {
 		if c2.Before(c) || c2.After(T) {
 			x.Fail("C09", "clock", "clock %s left the interval [%s, %s] without a deduction", c2, c, T)
 		}
-		if chargeable == 0 && !c2.Equal(T) {
-			// the implementation restarts the clock at the block time when nothing is chargeable; either is within [c,T]
-			x.Label("c09:clock-kept-without-chargeable-asset")
+		if chargeable == 0 && !c2.After(c) {
+			// Whole intervals have elapsed and nothing was chargeable: if the clock stays behind,
+			// those intervals will be charged to whatever stake arrives (or starts) later —
+			// charging stake for intervals before it was deposited / before its start time.
+			x.Fail("C09", "clock", "a whole claim interval elapsed with no chargeable asset (block time %s) but the clock stayed at %s: the elapsed intervals will be charged retroactively to later stake", T, c)
+		}
+		if chargeable == 0 {
+			x.Label("c09:trigger-without-chargeable-asset")
 		}
 		if !c2.Equal(c) {
 			// clock restarted: stake deposited before now starts a fresh interval
